@@ -315,7 +315,7 @@ class Ctx:
                 print("  report tail:\n" + "\n".join("    " + l for l in desc["report"].splitlines()[-25:]))
             exit_code = 1
         evals = int(self.stats.get(evaluations_key, 0))
-        if floor is not None and evals < floor:
+        if floor is not None and evals < floor and self.replay is None:
             self.inconclusive.append("monitor observed %d evaluations, below its floor %d" % (evals, floor))
         if self.inconclusive and exit_code == 0:
             exit_code = 2
